@@ -218,6 +218,26 @@ def body_tree(case):
                     f"{show(t,300)} on {show(pd,150)}: got {got} expected {exp}")
             return out
         mixed = mixed or (any(exp) and not all(exp))
+    # the same tree judged through a rule over a bare fan-out part: there the items carry
+    # their concrete paths while they are filtered
+    from ..terms import cond_kinds
+    if cond_kinds(t) <= {"value"}:
+        for pd in probes:
+            exp = model.ref_filter(t, pd)
+            try:
+                part = ns.d.MapValue() if isinstance(pd, dict) else ns.d.ListValue()
+                rt = ns.r.Rule(ns.d.DataPath(part), o).test(pd)
+                keys = [k for k, _ in model.items_of(pd)]
+                got_fail = sorted(repr(f.path[0]) for f in rt.failures)
+                exp_fail = sorted(repr(k) for k, e in zip(keys, exp) if not e)
+            except Exception as e:
+                out.exc("rule-over-tree", e)
+                return out
+            if got_fail != exp_fail or rt.is_valid is not all(exp):
+                out.add("boolean-algebra", "boolean-algebra|tree|through-rule",
+                        f"{show(t,300)} on {show(pd,150)}: failing items {got_fail} expected {exp_fail}")
+                return out
+        out.label("judged-through-rule")
     d = depth(t)
     out.label(f"depth:{d}")
     nulls = sum(1 for n in walk_cond(t) if isinstance(n, Null))
